@@ -226,8 +226,14 @@ func TestHandler(t *testing.T) {
 		for rec := 0; rec < nrec; rec++ {
 			log.Reset()
 			recTaken := map[string]bool{}
-			for k, v := range taken {
-				recTaken[k] = v
+			if rapid.IntRange(0, 2).Draw(t, "recordKeysMayCollideWithHandlerKeys") != 0 {
+				for k, v := range taken {
+					recTaken[k] = v
+				}
+			} else {
+				// a record attribute may carry the key of an attribute given to WithAttrs at the same depth: the record
+				// is still emitted with all ITS attributes (its value is the one printed under that key)
+				labels["record-key-may-shadow-handler-key"] = true
 			}
 			if rec > 0 {
 				labels["several-records-one-handler"] = true
@@ -238,6 +244,20 @@ func TestHandler(t *testing.T) {
 				msg += "x" // non-standard levels are emitted at the Always severity, where a blank message is a bare newline (C02)
 			}
 			recAttrs, recExp := genSlogAttrs(t, 5, labels, recTaken)
+			{
+				// log/slog itself drops an attribute that is an empty group when it is added to a record (unless it
+				// only becomes one through a LogValuer): whether such an attribute may shadow a handler attribute of the
+				// same key is decided before the handler sees it. Keep that corner out: no empty group under a handler key.
+				var ka []logslog.Attr
+				var ke []vlib.ExpAttr
+				for i, a := range recExp {
+					if a.IsGroup && len(vlib.Flatten(a.Group, "")) == 0 && taken[a.Key] { // effectively empty: log/slog removes empty groups recursively
+						continue
+					}
+					ka, ke = append(ka, recAttrs[i]), append(ke, a)
+				}
+				recAttrs, recExp = ka, ke
+			}
 			ts := vlib.GenTime().Draw(t, "ts")
 			direct := rapid.Bool().Draw(t, "directHandle")
 			ctx := context.Background()
